@@ -98,8 +98,9 @@ def check(ctx, replay=None):
                 call = res["calls"][ci]
                 sample.append({"method": call["m"]["name"], "params": [res["mod"].rust_ty(t) for _, t in call["m"]["params"]],
                                "ret": res["mod"].rust_ty(call["m"]["ret"]), "observed": res["records"].get(ci)})
-    import c01_extra
+    import c01_extra, c01_callbacks
     nextra = c01_extra.run(ctx)
+    nextra += c01_callbacks.run(ctx, "c", ("c11",))
     fails = run_shards(PROP, HEADER, goals) if goals else []
     if fails and not ctx.violations:
         for f in fails[:3]:
@@ -117,5 +118,5 @@ def check(ctx, replay=None):
         "Modelled, not verified: the macro's FFI type rewriting (param_ty, return rewriting) and the C backend's type naming / typedef shapes, "
         "transcribed into Abi/Model.v; gen/Tables.v regenerated from fmt_primitive_as_c, fmt_primitive_name_for_derived_type and capi.h.jinja. "
         "Value transport relies on rustc and gcc implementing the same C ABI for equal repr(C) types (trusted); register assignment is not modelled",
-        sample, ["callbacks are exercised by C03's end-to-end part", "x86-64 LP64 layout for size/offset theorems"],
+        sample, ["callback *lifecycles* are C03's end-to-end part; argument / result transport through callbacks of eight signatures is exercised here (c01_callbacks)", "x86-64 LP64 layout for size/offset theorems"],
         {"bridges": nb, "calls_executed": ncalls, "extra_shape_values_compared": nextra})
